@@ -168,6 +168,7 @@ func NewRec(t *testing.T, id string) *Rec {
 	if r.Root == "" {
 		r.Root = "/verif"
 	}
+	r.infl = os.Getenv("VERIF_INFLIGHT") != "" // the driver re-runs a shard that died with this set
 	r.loadKnown()
 	if p := os.Getenv("VERIF_REPLAY"); p != "" {
 		b, err := os.ReadFile(p)
@@ -261,7 +262,7 @@ func (r *Rec) Excluded(why string, n int) {
 
 // Inflight makes every case be written to an in-flight file before it runs so
 // that a process crash leaves the failing input behind.
-func (r *Rec) Inflight(on bool) { r.infl = on }
+func (r *Rec) Inflight(on bool) { r.infl = on || os.Getenv("VERIF_INFLIGHT") != "" }
 
 func hash64(s string) uint64 {
 	h := fnv.New64a()
@@ -572,7 +573,11 @@ func replayCase[C any](r *Rec, name string, prop func(c C, o *Obs) *Failure) boo
 	for i := 0; i < reps; i++ {
 		o := &Obs{}
 		saveKnown := r.known
-		r.known = map[string]string{} // replay reports everything
+		// replay reports everything - except when the driver confirms a worker death: there the listed
+		// findings stay tolerated inline so that the case runs on to the point where the process died
+		if os.Getenv("VERIF_REPLAY_KEEP_KNOWN") == "" {
+			r.known = map[string]string{}
+		}
 		f := Guard(r.ID+"/"+name, func() *Failure { return prop(c, o) })
 		r.known = saveKnown
 		if f != nil {
